@@ -72,10 +72,11 @@ def jsonable(x):
 
 def is_root(name):
     """Outputs that are square roots of a variance (std-dev / std-err / MoE families)."""
-    return any(t in name for t in ("std_dev", "std_err", "_moe", "stddev", "stderr", "_moes"))
+    return any(t in name for t in ("std_dev", "std_err", "_moe", "stddev", "stderr", "_moes",
+                                   "population_counts_moe"))
 
 
-def roots_close(a, b):
+def roots_close(a, b, scale=1.0):
     """Element-wise `close`, except that tiny values are compared in the variance domain:
     with weights that are not exactly representable a variance of 0 comes out as +-1e-16
     depending on the order of summation, and its root as 0 or 1e-8."""
@@ -89,6 +90,10 @@ def roots_close(a, b):
     for x, y in zip(aa.ravel().tolist(), bb.ravel().tolist()):
         if close(x, y):
             continue
-        if x != x or y != y or x < 0 or y < 0 or abs(x * x - y * y) > 1e-12:
+        if x != x or y != y or x < 0 or y < 0:
+            return False
+        # `scale`: what the root was multiplied by (population x 1.96 for population MoEs)
+        xs, ys = x / scale, y / scale
+        if abs(xs * xs - ys * ys) > 1e-12:
             return False
     return True
